@@ -10,4 +10,8 @@ theorem handle_events_not_known (edit : Bytes → Bytes) (i : In) (h : i.cls ≠
   unfold handle
   cases hs : i.site <;> cases hc : i.cls <;> simp_all <;> (split <;> simp)
 
+theorem allocFresh_eq : ∀ (bs : List Bytes) (st : Store), allocFresh st bs = st ++ bs
+  | [], st => by simp [allocFresh]
+  | b :: bs, st => by rw [allocFresh, allocFresh_eq bs]; simp
+
 end Gate.C25
